@@ -516,6 +516,7 @@ func (w *Worker) runPath(fn *ssa.Function, it workItem, fuel int64, exp *Explore
 	i.path = p
 	i.exp = exp
 	i.fuel = fuel
+	i.fuelStart = fuel
 	i.softFuelAt = -1
 	i.mapOrderSym = false
 	i.softOpaque = false
